@@ -78,8 +78,8 @@ type durableCase struct {
 	out      []string
 }
 
-func (dc *durableCase) readAll() (recs []int, poss []int, saved int, err error) {
-	st, err := ebsql.New(dc.path)
+func (dc *durableCase) readAll(opts ...ebsql.Option) (recs []int, poss []int, saved int, err error) {
+	st, err := ebsql.New(dc.path, opts...)
 	if err != nil {
 		return nil, nil, 0, err
 	}
@@ -186,6 +186,12 @@ func durableDomain(lines []string) []string {
 				continue
 			}
 			same := fmt.Sprint(r1, p1, s1) == fmt.Sprint(r2, p2, s2) && fmt.Sprint(r1) == fmt.Sprint(dc.acked) && s1 == dc.savedAck
+			// an existing database opened without the automatic migration is the same database
+			r3, p3, s3, err3 := dc.readAll(ebsql.WithAutoMigrate(false))
+			if err3 != nil || fmt.Sprint(r3, p3, s3) != fmt.Sprint(r1, p1, s1) {
+				dc.out = append(dc.out, fmt.Sprintf("!reopen without auto-migration differs: %v %v", err3, r3))
+				continue
+			}
 			dc.out = append(dc.out, "reopen same="+b01(same))
 		case "append": // clean in-process appends followed by Close
 			n := atoi(f[1])
